@@ -56,6 +56,19 @@ func c06Run(r *runCtx, id string, f []string) {
 	mo := multi.observe()
 	r.obs(id, "%s", strings.Join(dumps, " || "))
 	multi.close()
+	// whatever the programs do to each other's loads, the store never ends up holding one name with
+	// two kinds (the refusal in Store.Add is what keeps every scrape of every program working)
+	kindOf := map[string]string{}
+	for _, line := range mo.store {
+		fs := strings.Split(line, "/")
+		if len(fs) > 2 {
+			if k, ok := kindOf[fs[0]]; ok && k != fs[2] {
+				r.fail(id, "kind-split", "ops %s: the store holds the name %s with two kinds (%s and %s); store %v", f[2], unhx(fs[0]), k, fs[2], mo.store)
+				return
+			}
+			kindOf[fs[0]] = fs[2]
+		}
+	}
 	if multi.hung != "" {
 		r.fail(id, "load-hangs", "ops %s: %s; no later program can be loaded and every export through the store blocks", f[2], multi.hung)
 		return
